@@ -1,8 +1,8 @@
 #!/bin/sh
-# tools/mut.sh <Cnn> <patch> [tier] : run a check against a scratch worktree of /repo HEAD with <patch> applied
-# (VERIF_REPO / VERIF_OUT point away from /repo and /verif, so this can run next to a sweep on the real tree)
+# tools/mut.sh <Cnn> <patch> [tier] : run a check against a scratch worktree of /repo HEAD (or $MUT_BASE) with <patch> applied
+# (VERIF_REPO / VERIF_OUT point away from /repo and /verif, so this can run next to a sweep on the real tree; MUT_KEEP=1 keeps the output)
 id="$1"; patch="$2"; t="${3:-quick}"
-w=/tmp/mutrepo_$$; o=/tmp/mutout/$id
+w=/tmp/mutrepo_$$; o=/tmp/mutout/$id.$$
 git -C /repo worktree add -q --detach $w ${MUT_BASE:-HEAD} || exit 9
 mkdir -p $o
 cd $w && { git apply --3way "$patch" 2>/dev/null || git apply "$patch" || { echo "PATCH DOES NOT APPLY"; cd /; git -C /repo worktree remove --force $w; exit 8; }; }
@@ -10,4 +10,5 @@ cd /verif && VERIF_REPO=$w VERIF_OUT=$o VERIF_TIER="$t" ./check "$id" > $o/last.
 grep -E "^(VIOLATION|INCONCLUSIVE|KNOWN-FINDING|C[0-9]+ tier)" $o/last.out | cut -c1-330 | head -${MUT_LINES:-6}
 echo "exit=$rc"
 git -C /repo worktree remove --force $w
+[ -n "$MUT_KEEP" ] || rm -rf $o
 exit $rc
